@@ -1,4 +1,4 @@
--- GENERATED on every run by harness/core/py2lean_tf.py from control/xferfcn.py (__truediv__ 5a3c382d724d47aeb46474bdcff4367beb132152f1a3618a0520e828cb62429c; __pow__ 035da34732b54ea9180b4e549fbf395ab181e3ebb13c46188f32e94ef6917d93).  Do not edit.
+-- GENERATED on every run by harness/core/py2lean_tf.py from control/xferfcn.py (__truediv__ 5a3c382d724d47aeb46474bdcff4367beb132152f1a3618a0520e828cb62429c; __pow__ 6ef693eeff1d66e34f29d5e8fe04823aa614d72ae4301a068c05adca649a4e20).  Do not edit.
 import CtrlVerif.Model.PyTF
 import CtrlVerif.Generated.TFMul
 
@@ -41,7 +41,7 @@ termination_by (if self.isSiso = true then 0 else 4)
 decreasing_by all_goals (simp_wf; first | omega | (simp_all <;> omega) | (have := PyTF.isSiso_of_mkSiso (by assumption); simp_all <;> omega))
 
 /-- `control/xferfcn.py:TransferFunction.__pow__` as the source text says it (sha256 of the function text
-035da34732b54ea9180b4e549fbf395ab181e3ebb13c46188f32e94ef6917d93).
+6ef693eeff1d66e34f29d5e8fe04823aa614d72ae4301a068c05adca649a4e20).
 Defaults: none. -/
 def pow {K : Type} [Field K] [DecidableEq K] (self : DTF K) (other : PyTF.Exponent) :
     Except Err (DTF K) :=
@@ -51,23 +51,18 @@ def pow {K : Type} [Field K] [DecidableEq K] (self : DTF K) (other : PyTF.Expone
           (PyTF.mkSiso ([(1 : K)] : List K) ([(1 : K)] : List K) (some self.dt))
         else
           (if (0 < other) then
-              (if (other = 9) then
-                  (do
-                    let t2 ← Generated.TF.pow self (PyTF.Exponent.int (other - 2))
-                    Generated.TF.mul self (PyTF.Operand.tf t2))
-                else
-                  (do
-                    let t4 ← Generated.TF.pow self (PyTF.Exponent.int (other - 1))
-                    Generated.TF.mul self (PyTF.Operand.tf t4)))
+              (do
+                let t2 ← Generated.TF.pow self (PyTF.Exponent.int (other - 1))
+                Generated.TF.mul self (PyTF.Operand.tf t2))
             else
               (if (other < 0) then
-                  (match h_t6 : (PyTF.mkSiso ([(1 : K)] : List K) ([(1 : K)] : List K) none) with
+                  (match h_t4 : (PyTF.mkSiso ([(1 : K)] : List K) ([(1 : K)] : List K) none) with
                   | .error err => .error err
-                  | .ok t6 =>
+                  | .ok t4 =>
                     (do
-                      let t7 ← Generated.TF.truediv t6 (PyTF.Operand.tf self)
-                      let t8 ← Generated.TF.pow self (PyTF.Exponent.int (other + 1))
-                      Generated.TF.mul t7 (PyTF.Operand.tf t8)))
+                      let t5 ← Generated.TF.truediv t4 (PyTF.Operand.tf self)
+                      let t6 ← Generated.TF.pow self (PyTF.Exponent.int (other + 1))
+                      Generated.TF.mul t5 (PyTF.Operand.tf t6)))
                 else
                   (PyTF.fellOff))))
     | other@(.notInt) =>
